@@ -1,6 +1,8 @@
 /* prelude of every ll2c-generated C file */
 #pragma once
 #include <stdint.h>
+#include <string.h>
+union symx_vec { uint32_t d[8]; uint64_t q[4]; double pd[4]; uint8_t b[32]; };
 #ifdef __CPROVER__
 #  ifdef SYMX_WITNESS
      /* reachability twin: every property assertion is dropped, the witness point must FAIL */
